@@ -24,6 +24,7 @@ Specs: spec/lib/PolyIndex.tla (+MCPolyIndex), spec/lib/IPoly.tla, spec/lib/Gauss
 from __future__ import annotations
 
 import json
+import os
 import random
 import sys
 import threading
@@ -34,6 +35,12 @@ import numpy as np
 
 import polyutil as pu
 from common import SPEC, Check, MachineryError, tlc
+
+# The box is shared: OpenMP worker threads that spin while idle make every parallel-kernel launch cost
+# milliseconds (or stall) under oversubscription.  Must be set before the OpenMP runtime is loaded.
+os.environ.setdefault("OMP_WAIT_POLICY", "PASSIVE")
+os.environ.setdefault("GOMP_SPINCOUNT", "0")
+os.environ.setdefault("KMP_BLOCKTIME", "0")
 
 CFG = SPEC / "cfg"
 IDX = SPEC / "lib" / "MCPolyIndex.tla"
@@ -686,6 +693,7 @@ def check_thread_sweep(ck: Check, bad: list, dense: list):
                              pu.to_block(pu.from_tlc(inst["diff"][v]), a + b - 1, np.float64)))
             PL, QL = pu.to_list(p, a), pu.to_list(q, b)
             exp_blocks = [pu.to_block(m, d, np.complex128) for d in range(a + b + 1)]
+            wrong1 = set()          # jobs already wrong with the first thread count: not a schedule effect
             for n in counts:
                 L.numba.set_num_threads(n)
                 for rep in range(reps):
@@ -693,13 +701,19 @@ def check_thread_sweep(ck: Check, bad: list, dense: list):
                         got = call()
                         runs += 1
                         if got.shape != want.shape or got.dtype != want.dtype or not np.array_equal(got, want):
-                            bad.append((f"{c['fn']}|result-depends-on-thread-count",
+                            if n == counts[0] and rep == 0:
+                                wrong1.add(id(c))
+                            bad.append((f"{c['fn']}|" + ("result-differs-from-definition" if id(c) in wrong1
+                                                        else "result-depends-on-thread-count"),
                                         f"{c['fn']} with {n} threads (run {rep}) is not bit-identical to the exact result on the dense "
                                         f"instance (x1+..+x6)^{a} (x1+..+x6)^{b}", dict(c, threads=n)))
                     R = O._polynomial_multiply(PL, QL, a + b, psi, clmo, enc)
                     runs += 1
                     if len(R) != a + b + 1 or any(not np.array_equal(np.asarray(R[d]), exp_blocks[d]) for d in range(a + b + 1)):
-                        bad.append(("_polynomial_multiply|result-depends-on-thread-count",
+                        if n == counts[0] and rep == 0:
+                            wrong1.add("L")
+                        bad.append(("_polynomial_multiply|" + ("result-differs-from-definition" if "L" in wrong1
+                                                               else "result-depends-on-thread-count"),
                                     f"_polynomial_multiply with {n} threads (run {rep}) is not bit-identical to the exact result",
                                     dict(fn="_polynomial_multiply", p=inst["p"], q=inst["q"], lp=a, lq=b, maxdeg=a + b,
                                          expect=inst["mul"], threads=n)))
@@ -740,9 +754,9 @@ def main(tier=None, replay=None):
     def gen():
         out = {}
         out["mono"] = tlc(OPS, CFG / f"PolyOps.mono.{ck.tier}.cfg", timeout=1500, workers=8)
-        out["walk"] = tlc(OPS, CFG / "PolyOps.walk.cfg", simulate="num=%d" % (120 if ck.quick else 1200), seed=ck.seed,
+        out["walk"] = tlc(OPS, CFG / "PolyOps.walk.cfg", simulate="num=%d" % (100 if ck.quick else 1200), seed=ck.seed,
                           depth=120, workers=6, timeout=1500)
-        out["walkbig"] = tlc(OPS, CFG / "PolyOps.walkbig.cfg", simulate="num=%d" % (40 if ck.quick else 400), seed=ck.seed + 1,
+        out["walkbig"] = tlc(OPS, CFG / "PolyOps.walkbig.cfg", simulate="num=%d" % (25 if ck.quick else 400), seed=ck.seed + 1,
                              depth=160, workers=6, timeout=1500)
         out["dense"] = tlc(OPS, CFG / f"PolyOps.dense.{ck.tier}.cfg", timeout=1500, workers=4)
         return out
@@ -776,9 +790,10 @@ def main(tier=None, replay=None):
         raise MachineryError(f"too few instances generated ({len(insts)}, dense {len(dense)})")
     ck.part("instances", distinct=len(insts), dense=len(dense))
 
-    # B. exact replay
+    # B. exact replay (two threads: launch overhead only; thread counts are swept in part C)
     t0 = time.time()
     ncases = 0
+    lib().numba.set_num_threads(min(2, int(lib().numba.config.NUMBA_NUM_THREADS)))
     for c in fixed_cases(insts[0]):
         check_case(ck, c, bad)
         ncases += 1
@@ -796,6 +811,7 @@ def main(tier=None, replay=None):
                        expect=inst["poisson"])):
             check_case(ck, c, bad)
             ncases += 1
+    lib().numba.set_num_threads(int(lib().numba.config.NUMBA_NUM_THREADS))
     ck.part("replay", cases=ncases, mismatches=len(bad), wall_s=round(time.time() - t0, 1))
     for inst in insts:
         if len(inst["p"]) == 3 and len(inst["q"]) >= 2:
